@@ -468,7 +468,7 @@ def substitute(progression, substitute_index, depth=0):
     res2 = []
     if depth > 0:
         for x in res:
-            new_progr = progression
+            new_progr = list(progression)
             new_progr[substitute_index] = x
             res2 += substitute(new_progr, substitute_index, depth - 1)
     return res + res2
